@@ -144,6 +144,9 @@ C05_Viol(r) ==
          \/ Len(gs) > 0 /\ Cardinality(live) = 0 /\ r.exp.nchunks > 0
          \/ \E g \in live : \E k \in 1..Len(evs) : evs[k][1] = "free" /\ evs[k][3] > gs[g].size
     \/ r.a = "ctor" /\ r.args.k = "unallocated" /\ Len(evs) > 0                \* unallocated: no base allocator call
+    \* into_raw / from_raw: an ownership round trip touches nothing
+    \/ r.a = "raw_roundtrip" /\ (Len(evs) > 0 \/ r.o.writes # <<>> \/ r.o.stats[4] # r.o.pa \/ r.o.res # "ok" \/ r.o.damaged # <<>>
+                                 \/ <<(IF r.o.cur = 0 THEN 0 ELSE r.o.chunks[r.o.cur][1]), (IF r.o.cur = 0 THEN 0 ELSE r.o.chunks[r.o.cur][5])>> # r.o.pp)
     \* the arena never touches bytes outside the blocks it was granted (guard gaps, released blocks)
     \/ r.a # "drop" /\ r.a # "final" /\ \E k \in 1..Len(r.o.writes) :
           ~InLiveGrant(gs, r.o.writes[k][1], r.o.writes[k][2])
